@@ -111,6 +111,9 @@ def build_catalogue():
         c('bulgarian_score', 'U16', 'M', '100', '12.0'), c('bulgarian_score', 'U16', 'F', 'LJ', 4.5),
         c('normalize_event_code', '4x100h'), c('get_implement_weight', 'SP', 'M', 'U17'),
         c('calc_uka_age_group', '2000-05-01', '2017-06-01', 'TF'),
+        c('calc_uka_age_group', {'$date': '2000-05-01'}, {'$date': '2017-06-01'}, 'TF'),
+        c('calc_uka_age_group', {'$date': '1970-05-01'}, {'$date': '2017-06-01'}, 'XC'),
+        c('calc_uka_age_group', {'$date': '2005-09-02'}, {'$date': '2017-06-01'}, 'TF'),
         # helpers the scoring / grading functions lean on (no shared state today)
         c('parse_hms', '1:02:03.4'), c('parse_hms', '16:23'), c('get_distance', '5K'), c('get_distance', 'MAR'),
         c('get_distance', '3M'), c('str2num', '12.50'), c('round_up_str_num', '12.345', 2),
@@ -535,6 +538,9 @@ _hex = re.compile(r'0x[0-9a-fA-F]+')
 def _resolve(x, jsonschema):
     if isinstance(x, dict) and '$validator' in x:
         return getattr(jsonschema, x['$validator'])
+    if isinstance(x, dict) and '$date' in x:
+        import datetime
+        return datetime.date(*[int(p_) for p_ in x['$date'].split('-')])
     return x
 
 
